@@ -1,17 +1,74 @@
 /-
 Props/C13 — property theorems for C13 (numeric wire codecs are exact or within their stated resolution).
-Helper lemmas are in Proofs/C13*.  Specs (IEEE value of a bit pattern, firmware encoders) are in Spec/C13.
+
+Helper lemmas are in Proofs/C13*.  Specs (IEEE value of a bit pattern, device-side packet encoders) are in Spec/C13.
+Every theorem is about Model/C13, whose bit expressions, scale factors and formats are regenerated from /repo
+(Gen/C13); `fp16_to_float` is entirely the translation of the source.
 -/
 import CfVerif.Proofs.C13
+import CfVerif.Proofs.C13Val
+import CfVerif.Proofs.C13Traj
+import CfVerif.Proofs.C13Led
+import CfVerif.Proofs.C13Loc
+import CfVerif.Proofs.C13QuatInt
 namespace CfVerif.C13
 open CfVerif CfVerif.C13.Spec
+
+/-! ## Gen obligations: what the hand-written parts of the model assume about the current source -/
+
+theorem gen_quat_compress :
+    Gen.C13.cqNormalise = "np.array(quat) / np.linalg.norm(quat)" ∧ Gen.C13.cqSqrtHalf = "1.0 / np.sqrt(2)" ∧
+    Gen.C13.cqCompares = ["abs(quat_n[i]) > abs(quat_n[i_largest])", "quat_n[i_largest] < 0", "i != i_largest", "quat_n[i] < 0"] ∧
+    Gen.C13.cqRanges = ["range(1, 4)", "range(4)"] ∧ Gen.C13.cqNegate = "quat_n[i_largest] < 0" ∧
+    Gen.C13.cqNegbit = "int((quat_n[i] < 0) ^ negate)" ∧ Gen.C13.cqMagOperand = "abs(quat_n[i]) / M_SQRT1_2" ∧
+    Gen.C13.cqMagRounding = "0.5" ∧ Gen.C13.cqCompAssigns = ["i_largest", "comp << 10 | negbit << 9 | mag"] ∧
+    Gen.C13.cqReturn = "comp" := by decide
+theorem gen_quat_decompress :
+    Gen.C13.dqCompares = ["i != i_largest", "negbit == 1"] ∧ Gen.C13.dqRanges = ["range(3, -1, -1)"] ∧
+    Gen.C13.dqComponent = ["mag / mask / np.sqrt(2)", "-q[i]"] ∧ Gen.C13.dqLargestComponent = "np.sqrt(1.0 - sum_squares)" ∧
+    Gen.C13.dqAugAssigns = ["sum_squares += q[i] * q[i]"] ∧ Gen.C13.dqReturn = "q" := by decide
+theorem gen_trajectory :
+    Gen.C13.spatialOperand = "coordinate" ∧ Gen.C13.yawOperand = "math.degrees(angle_rad)" ∧
+    Gen.C13.spatialElement = "map(self._encode_spatial, element)" ∧ Gen.C13.yawElement = "map(self._encode_yaw, element)" ∧
+    Gen.C13.startArgs = ["self._encode_spatial(self.x)", "self._encode_spatial(self.y)", "self._encode_spatial(self.z)",
+      "self._encode_yaw(self.yaw)"] ∧
+    Gen.C13.segHeadArgs = ["element_types", "duration_ms"] ∧ Gen.C13.durationOperand = "self.duration" ∧
+    Gen.C13.segElementCalls = ["struct.pack('<BH', element_types, duration_ms)",
+      "self._pack_element(self._encode_spatial_element(self.x))", "self._pack_element(self._encode_spatial_element(self.y))",
+      "self._pack_element(self._encode_spatial_element(self.z))", "self._pack_element(self._encode_yaw_element(self.yaw))"] ∧
+    Gen.C13.segElemArgs = ["part"] ∧
+    Gen.C13.segValidateCompares = ["length != 0", "length != 1", "length != 3", "length != 7"] ∧
+    Gen.C13.segInitValidates = ["self._validate(element_x)", "self._validate(element_y)", "self._validate(element_z)",
+      "self._validate(element_yaw)"] := by decide
+/-- millimetres and tenths of a degree -/
+theorem gen_units : Gen.C13.spatialScale = 1000 ∧ Gen.C13.yawScale = 10 := by decide
+theorem gen_led :
+    Gen.C13.ledR5Intensity = "led.intensity" ∧ Gen.C13.ledG6Intensity = "led.intensity" ∧ Gen.C13.ledB5Intensity = "led.intensity" ∧
+    0 < Gen.C13.ledR5Divisor ∧ 0 < Gen.C13.ledG6Divisor ∧ 0 < Gen.C13.ledB5Divisor ∧
+    Gen.C13.ledRanges = ["self.leds"] ∧ Gen.C13.ledInitRanges = ["range(12)"] := by decide
+theorem gen_incoming :
+    Gen.C13.incArgs = ["packet.data[:1]", "raw_data[:5]"] ∧
+    Gen.C13.incCompares = ["len(packet.data) < 1", "pk_type == self.RANGE_STREAM_REPORT", "len(data) % 5 != 0",
+      "pk_type == self.LH_PERSIST_DATA", "pk_type == self.LH_ANGLE_STREAM"] ∧
+    Gen.C13.incRanges = ["range(int(len(data) / 5))"] ∧
+    (∀ s ∈ ["data = packet.data[1:]", "raw_data = data", "decoded_data[anchor_id] = distance", "raw_data = raw_data[5:]",
+        "decoded_data = bool(data[0])", "decoded_data = self._decode_lh_angle(data)",
+        "pk = LocalizationPacket(pk_type, data, decoded_data)"], s ∈ Gen.C13.incAssigns) := by decide
+theorem gen_lh_angle :
+    Gen.C13.lhArgs = ["data"] ∧ Gen.C13.lhFp16Import = ["from cflib.utils.encoding import fp16_to_float"] ∧
+    Gen.C13.lhAssigns = ["decoded_data = {}", "decoded_data['basestation'] = raw_data[0]", "decoded_data['x'] = [0, 0, 0, 0]",
+      "decoded_data['x'][0] = raw_data[1]", "decoded_data['x'][1] = raw_data[1] - fp16_to_float(raw_data[2])",
+      "decoded_data['x'][2] = raw_data[1] - fp16_to_float(raw_data[3])", "decoded_data['x'][3] = raw_data[1] - fp16_to_float(raw_data[4])",
+      "decoded_data['y'] = [0, 0, 0, 0]", "decoded_data['y'][0] = raw_data[5]",
+      "decoded_data['y'][1] = raw_data[5] - fp16_to_float(raw_data[6])", "decoded_data['y'][2] = raw_data[5] - fp16_to_float(raw_data[7])",
+      "decoded_data['y'][3] = raw_data[5] - fp16_to_float(raw_data[8])"] := by decide
 
 /-! ## Half precision -/
 
 /-- Half-precision decoding returns (a float holding) the IEEE-754 binary16 value for every one of the
 65 536 bit patterns, including signed zeros, subnormals, infinities and NaN.
-`fp16ToFloat` is the translation of the current source (Gen/C13); `halfValue`/`singleValue` are the IEEE
-value specs; `same` is equality of the denoted values (sign-sensitive on zeros, NaN ~ NaN). -/
+`fp16ToFloat` is the translation of the current source; `halfValue`/`singleValue` are the IEEE value specs;
+`same` is equality of the denoted values (sign-sensitive on zeros, NaN ~ NaN; see `same_fin_iff`). -/
 theorem fp16_exact (h : Nat) (hh : h < 65536) :
     ∃ bits, fp16ToFloat (h : Int) = .ok (.f32 bits) ∧ bits < 2 ^ 32 ∧
       (singleValue bits).same (halfValue h) = true :=
@@ -33,10 +90,165 @@ theorem fp16_live_counterexample :
   rw [this] at hb
   cases hb
 
-/-! ## Non-vacuity -/
 example : fp16ToFloat 0x3C00 = .ok (.f32 0x3F800000) := by decide     -- 1.0
 example : fp16ToFloat 0x0001 = .ok (.f32 0x33800000) := by decide     -- smallest subnormal 2^-24
 example : fp16ToFloat (-32768) = .ok (.f32 0x80000000) := by decide   -- -0.0 from the signed reading
 example : halfValue 0xC000 = .fin true (1024 * 2 ^ 16) 25 := by decide  -- -2.0
+example : halfValue 0x8000 = .fin true 0 25 ∧ halfValue 0xFC00 = .inf true ∧ halfValue 0x7E01 = .nan := by decide
+
+/-! ## Quaternion compression
+
+`compressR`/`decompressR` (Proofs/C13Quat) are the code's functions over ℝ: same scan, same bit packing (Gen), real
+`/ sqrt abs`, `int()` as floor.  `compressInt` is the executable model run against the real code. -/
+
+/-- Compressing and decompressing any non-zero quaternion yields the same rotation (`q` or `-q`: one common sign)
+with every component within two quantisation steps `2 · (1/511 · 1/√2)`, and the compressed word fits 32 bits. -/
+theorem quat_roundtrip (q : Fin 4 → ℝ) (hq : q ≠ 0) :
+    ∃ w : Nat, compressR q = (w : Int) ∧ w < 2 ^ 32 ∧
+      ∃ s : ℝ, (s = 1 ∨ s = -1) ∧ ∀ j, |s * (q j / qnorm q) - decompressR w j| ≤ 2 * (1 / (511 * Real.sqrt 2)) :=
+  quat_roundtrip_aux q hq
+
+/-- The executable model (integer quaternion = any float quaternion after scaling) is the real-number compressor. -/
+theorem quat_model_is_compressR (v : Fin 4 → Int) (hv : v ≠ 0) :
+    compressInt v = .ok (compressR (fun i => (v i : ℝ))) :=
+  compressInt_eq v hv
+
+/-- Integer part alone: index, sign bits and 9-bit magnitudes survive packing and unpacking; the word is < 2^32. -/
+theorem quat_fields_roundtrip (iL : Fin 4) (neg : Fin 4 → Bool) (mag : Fin 4 → Nat) (hm : ∀ i, mag i ≤ 511) :
+    ∃ w : Nat, assemble iL neg mag = (w : Int) ∧ w < 2 ^ 32 ∧
+      decompressParts w = .ok (iL.val, (stored iL).reverse.map (fun i => ⟨i.val, neg i, mag i⟩)) :=
+  decompress_assemble iL neg mag hm
+
+/-- the zero quaternion is refused (`int(nan)` raises `ValueError`); a word with index ≥ 4 raises `IndexError` -/
+theorem quat_errors : compressInt (fun _ => 0) = .error .valueError ∧ decompressParts (2 ^ 32) = .error .indexError := by
+  decide
+
+example : compressInt (fun i => [1, 1, 1, 1].getD i.val 0) = .ok 0x1695A569 := by decide +kernel
+example : decompressParts 0x1695A569 = .ok (0, [⟨3, false, 361⟩, ⟨2, false, 361⟩, ⟨1, false, 361⟩]) := by decide
+example : (fun i : Fin 4 => ([0, -3, 0, 4] : List ℝ).getD i.val 0) ≠ 0 := by
+  intro h; have := congrFun h 3; simp at this
+
+/-! ## Compressed trajectories: millimetres and tenths of a degree -/
+
+/-- `_encode_spatial`: the encoded value is less than one unit (1 mm) away from `1000·x`
+(`|e·den - 1000·num| < den`) for every coordinate `x = num/den` whose encoding is below 2^52 in magnitude —
+in particular for everything that can be packed. -/
+theorem coordinate_error_lt_one (x : Q) (hd : 0 < x.den) (e : Int) (he : encodeSpatial x = .ok e)
+    (hfit : e.natAbs < 2 ^ 52) :
+    (e * x.den - x.num * Gen.C13.spatialScale).natAbs < x.den :=
+  truncRn_error (x.scale Gen.C13.spatialScale) hd e he hfit
+
+/-- `_encode_yaw` on the value `deg` of `math.degrees(angle_rad)`: less than one unit (0.1°) away from `10·deg` -/
+theorem yaw_error_lt_one (deg : Q) (hd : 0 < deg.den) (e : Int) (he : encodeYawDeg deg = .ok e)
+    (hfit : e.natAbs < 2 ^ 52) :
+    (e * deg.den - deg.num * Gen.C13.yawScale).natAbs < deg.den :=
+  truncRn_error (deg.scale Gen.C13.yawScale) hd e he hfit
+
+/-- `CompressedStart.pack`: when all four encoded values fit int16 the 8 bytes decode to exactly those values;
+otherwise `struct.error` is raised — overflow raises rather than wraps. -/
+theorem start_packs_or_raises (x y z w : Q) (ex ey ez ew : Int)
+    (hx : encodeSpatial x = .ok ex) (hy : encodeSpatial y = .ok ey) (hz : encodeSpatial z = .ok ez)
+    (hw : encodeYawDeg w = .ok ew) :
+    ((∀ v ∈ [ex, ey, ez, ew], fitsInt16 v) →
+      ∃ bs, packStart x y z w = .ok bs ∧ bs.length = 8 ∧
+        unpack (parseFmt! Gen.C13.startFmt) bs = .ok [.int ex, .int ey, .int ez, .int ew]) ∧
+    ((∃ v ∈ [ex, ey, ez, ew], ¬ fitsInt16 v) → packStart x y z w = .error .structError) :=
+  packStart_spec x y z w ex ey ez ew hx hy hz hw
+
+/-- every polynomial element of a `CompressedSegment` (spatial or yaw, any number of parts): same statement -/
+theorem element_packs_or_raises (enc : Q → Except PyErr Int) (f : Q → Int) (ps : List Q) (h : ∀ p ∈ ps, enc p = .ok (f p)) :
+    ((∀ p ∈ ps, fitsInt16 (f p)) →
+      ∃ bs, packElement enc ps = .ok bs ∧ bs.length = 2 * ps.length ∧
+        unpack (List.replicate ps.length Code.h) bs = .ok (ps.map (fun p => Val.int (f p)))) ∧
+    ((∃ p ∈ ps, ¬ fitsInt16 (f p)) → packElement enc ps = .error .structError) :=
+  packElement_spec enc f ps h
+
+example : encodeSpatial ⟨-1001, 1000⟩ = .ok (-1001) ∧ encodeSpatial ⟨12345, 10000⟩ = .ok 1234 := by decide
+example : packStart ⟨1, 1⟩ ⟨-2, 1⟩ ⟨32767, 1000⟩ ⟨1, 3⟩ = .ok [0xe8, 3, 0x30, 0xf8, 0xff, 0x7f, 3, 0] := by decide
+example : packStart ⟨32768, 1000⟩ ⟨0, 1⟩ ⟨0, 1⟩ ⟨0, 1⟩ = .error .structError := by decide
+example : fitsInt16 32767 ∧ ¬ fitsInt16 32768 := by decide
+
+/-! ## LED ring: RGB888 → RGB565 -/
+
+/-- For 8-bit levels and an intensity of 0..100 the word sent for one LED is `r5·2048 + g6·32 + b5` with
+`r5 ≤ 31`, `g6 ≤ 63`, `b5 ≤ 31` (so it is below 2^16, fields do not overlap), transmitted big-endian. -/
+theorem led_rgb565 (r g b i : Nat) (hr : r < 256) (hg : g < 256) (hb : b < 256) (hi : i ≤ 100) :
+    let w := ledChanR r i * 2048 + ledChanG g i * 32 + ledChanB b i
+    ledChanR r i ≤ 31 ∧ ledChanG g i ≤ 63 ∧ ledChanB b i ≤ 31 ∧ w < 2 ^ 16 ∧
+    led565 ⟨r, g, b, i⟩ = .ok (w : Int) ∧
+    ledBytes ⟨r, g, b, i⟩ = .ok [UInt8.ofNat (w / 256), UInt8.ofNat (w % 256)] := by
+  intro w
+  obtain ⟨l1, _, _⟩ := ledChan_le r i hr hi
+  obtain ⟨_, l2, _⟩ := ledChan_le g i hg hi
+  obtain ⟨_, _, l3⟩ := ledChan_le b i hb hi
+  obtain ⟨h1, h2⟩ := led565_eq r g b i hr hg hb hi
+  exact ⟨l1, l2, l3, by omega, h1, h2⟩
+
+/-- each channel is monotone in the colour level (and in the intensity) -/
+theorem led_monotone (c c' i i' : Nat) (hc : c ≤ c') (hc' : c' < 256) (hi : i ≤ i') :
+    ledChanR c i ≤ ledChanR c' i' ∧ ledChanG c i ≤ ledChanG c' i' ∧ ledChanB c i ≤ ledChanB c' i' :=
+  ledChan_mono c c' i i' hc hc' hi
+
+/-- black maps to 0 at every intensity, white to full scale (31/63/31, word 0xFFFF) at full intensity -/
+theorem led_black_white :
+    (∀ i, ledChanR 0 i = 0 ∧ ledChanG 0 i = 0 ∧ ledChanB 0 i = 0) ∧
+    ledChanR 255 100 = 31 ∧ ledChanG 255 100 = 63 ∧ ledChanB 255 100 = 31 ∧
+    led565 ⟨255, 255, 255, 100⟩ = .ok 0xFFFF ∧ led565 ⟨0, 0, 0, 100⟩ = .ok 0 := by
+  refine ⟨?_, by decide, by decide, by decide, by decide, by decide⟩
+  intro i
+  have h : (Gen.C13.ledR5 (0 : Nat)).toNat = 0 ∧ (Gen.C13.ledG6 (0 : Nat)).toNat = 0 ∧ (Gen.C13.ledB5 (0 : Nat)).toNat = 0 := by decide
+  unfold ledChanR ledChanG ledChanB
+  rw [h.1, h.2.1, h.2.2]
+  simp
+
+/-- the timings driver sends the same RGB565 word as the ring driver at full intensity -/
+theorem led_timing_colour (t : Timing) (r g b : Nat) (hr : r < 256) (hg : g < 256) (hb : b < 256)
+    (htr : t.r = r) (htg : t.g = g) (htb : t.b = b) :
+    timing565 t = ((ledChanR r 100 * 2048 + ledChanG g 100 * 32 + ledChanB b 100 : Nat) : Int) :=
+  timing565_eq t r g b hr hg hb htr htg htb
+
+example : ledWriteData [⟨255, 255, 255, 100⟩, ⟨0, 0, 0, 100⟩, ⟨128, 64, 32, 50⟩] = .ok [0xff, 0xff, 0, 0, 0x41, 0x02] := by decide
+example : ledBytes ⟨255, 255, 255, 1000⟩ = .error .valueError := by decide    -- intensity beyond 100: bytearray() refuses
+example : timingsWriteData [⟨5, 255, 0, 0, 3, true, 2⟩, ⟨0, 0, 0, 0, 0, false, 0⟩] = .ok [5, 0xf8, 0, 0x53, 0, 0, 0, 0] := by decide
+
+/-! ## Localization stream packets -/
+
+/-- A range report decodes to exactly the reported anchor distances: the dict built by assigning each
+`(anchor id, binary32 distance)` in order — for any number of anchors. -/
+theorem range_report_decodes (anchors : List (Nat × Nat)) (h : ∀ a ∈ anchors, a.1 < 256 ∧ a.2 < 2 ^ 32) :
+    incoming (encodeRangeReport anchors) =
+      .ok (.packet 0 ((encodeRangeReport anchors).drop 1) (.ranges (dictOf anchors))) :=
+  incoming_range anchors h
+
+/-- with pairwise distinct anchor ids that dict is the reported list itself -/
+theorem range_report_distinct (anchors : List (Nat × Nat)) (hn : (anchors.map (·.1)).Nodup) : dictOf anchors = anchors :=
+  dictOf_nodup anchors hn
+
+/-- A lighthouse angle-stream packet decodes, per axis, to the base sweep angle and `base - offsetₖ` where each
+offset is (a float holding) the IEEE binary16 value of the transmitted 16 bits — including ±0, subnormals, ±inf, NaN. -/
+theorem lh_angle_decodes (bs bx x1 x2 x3 by_ y1 y2 y3 : Nat) (hbs : bs < 256) (hbx : bx < 2 ^ 32) (hby : by_ < 2 ^ 32)
+    (hx1 : x1 < 65536) (hx2 : x2 < 65536) (hx3 : x3 < 65536) (hy1 : y1 < 65536) (hy2 : y2 < 65536) (hy3 : y3 < 65536) :
+    incoming (encodeLhAngle bs bx x1 x2 x3 by_ y1 y2 y3) =
+      .ok (.packet 10 ((encodeLhAngle bs bx x1 x2 x3 by_ y1 y2 y3).drop 1)
+        (.lhAngle bs
+          [.base bx, .sub bx (.f32 (halfAsSingle x1)), .sub bx (.f32 (halfAsSingle x2)), .sub bx (.f32 (halfAsSingle x3))]
+          [.base by_, .sub by_ (.f32 (halfAsSingle y1)), .sub by_ (.f32 (halfAsSingle y2)), .sub by_ (.f32 (halfAsSingle y3))])) ∧
+    ∀ h ∈ [x1, x2, x3, y1, y2, y3], halfAsSingle h < 2 ^ 32 ∧ (singleValue (halfAsSingle h)).same (halfValue h) = true := by
+  refine ⟨incoming_lh bs bx x1 x2 x3 by_ y1 y2 y3 hbs hbx hby hx1 hx2 hx3 hy1 hy2 hy3, ?_⟩
+  intro h hm
+  have hh : h < 65536 := by
+    simp only [List.mem_cons, List.mem_nil_iff, or_false] at hm
+    rcases hm with rfl | rfl | rfl | rfl | rfl | rfl <;> assumption
+  exact (halfAsSingle_spec h hh).2
+
+/-- malformed packets: a range report whose length is not a multiple of 5 is dropped, an angle packet of the wrong
+size raises `struct.error`, an empty packet is dropped -/
+theorem incoming_malformed :
+    incoming [0, 1, 2, 3] = .ok .dropped ∧ incoming [10, 1, 2, 3] = .error .structError ∧ incoming [] = .ok .dropped := by
+  decide
+
+example : incoming (encodeRangeReport [(1, 0x40800000), (2, 0x40A00000)]) =
+    .ok (.packet 0 [1, 0, 0, 0x80, 0x40, 2, 0, 0, 0xA0, 0x40] (.ranges [(1, 0x40800000), (2, 0x40A00000)])) := by decide
+example : halfAsSingle 0x8000 = 0x80000000 ∧ halfAsSingle 0x3C00 = 0x3F800000 := by decide
 
 end CfVerif.C13
